@@ -397,6 +397,34 @@ def swan_series(rng, d, name, f, th, x, y, t0, nt, step=3600):
         fh.write("\n".join(L) + "\n")
     return p_, np.array(times), np.array(E), fv, dv
 
+def swan_fixed(d, name, f, th, x, y, t0, E):
+    """SWAN ASCII file (LONLAT, AFREQ, NDIR, VaDens, TIME) holding exactly the densities E[t, point, f, th] given
+    (values that are already multiples of a factor survive the FACTOR encoding unchanged; zero spectra are written as
+    FACTOR blocks of zeros, as hotfiles have them)."""
+    ft, fv = _parse("%10.4f", f)
+    dt_, dv = _parse("%10.4f", th)
+    L = ["SWAN   1                                Swan standard spectral file, version", "$   Data produced by SWAN version 41.31", "$   Project: test ; run number: 1",
+         "TIME                                    time-dependent data", "     1                                  time coding option",
+         "LONLAT                                  locations in spherical coordinates", "%6d                                  number of locations" % len(x)]
+    L += ["%14.6f %14.6f" % (a, b) for a, b in zip(x, y)]
+    L += ["AFREQ                                   absolute frequencies in Hz", "%6d                                  number of frequencies" % len(f)] + list(ft)
+    L += ["NDIR                                    spectral nautical directions in degr", "%6d                                  number of directions" % len(th)] + list(dt_)
+    L += ["QUANT", "     1                                  number of quantities in table", "VaDens                                  variance densities in m2/Hz/degr",
+          "m2/Hz/degr                              unit", "   -0.9900E+02                          exception value"]
+    for k in range(E.shape[0]):
+        s_ = str(t0 + np.timedelta64(k * 3600, "s"))
+        L.append("%s.%s                         date and time" % (s_[:10].replace("-", ""), s_[11:19].replace(":", "")))
+        for p in range(len(x)):
+            Et = E[k, p]
+            m = float(Et.max())
+            fac = float("%.8E" % (m / 9999.0)) if m > 0 else 1.0
+            ints = np.rint(Et / fac).astype(int)
+            L += ["FACTOR", "    %.8E" % fac] + ["".join("%6d" % v for v in r) for r in ints]
+    p_ = os.path.join(d, name)
+    with open(p_, "w") as fh:
+        fh.write("\n".join(L) + "\n")
+    return p_
+
 
 # --------------------------------------------------------------------------------------- XWAVES
 def xwaves(rng, d):
